@@ -211,6 +211,7 @@ UNITS['c12'] = {
         ('lookup_ignores_the_bypass', 'if self.no_cache { return None; }', '', ['C12.lookup']),
         ('memoize_stores_under_another_cursor', 'c.cache(t, s, r.clone());', 'c.cache(t, Cursor { pos: 0 }, r.clone());', ['C12.memoize']),
         ('memoize_does_not_store', 'c.cache(t, s, r.clone());', '', ['C12.memoize']),
+        ('memoize_stores_successes_only', 'c.cache(t, s, r.clone());', 'if r.is_ok() { c.cache(t, s, r.clone()); }', ['C12.memoize']),
         ('memoize_stores_before_running', 'let r = call_production(p, c, s);\n        c.cache(t, s, r.clone());', 'let r0 = c.lookup(t, s); let r = call_production(p, c, s);\n        if let Some(x) = r0 { c.cache(t, s, x); }', ['C12.memoize']),
     ],
 }
@@ -513,6 +514,12 @@ PROPS = {
              'why': 'the only memoize call with ParserTag::Term passes parse_term: precondition tag_of(p) == t of memoize (unit c12)'},
             {'name': 'P12.parse_expression', 'kind': 'pinned_text', 'file': 'oal-syntax/src/parser.rs', 'path': [('fn', 'parse_expression')],
              'why': 'the only memoize call with ParserTag::Expression passes the recursion-or-relation closure: precondition tag_of(p) == t of memoize (unit c12)'},
+            {'name': 'A11.cursor_key_is_derived_structural', 'kind': 'grep_count', 'files': ['oal-model/src/lexicon.rs'], 'count': 1,
+             'token': r'#\[derive\((?=[^)]*\bPartialEq\b)(?=[^)]*\bEq\b)(?=[^)]*\bHash\b)[^)]*\)\]\s*pub struct Cursor\(Option<ItemToken>\);',
+             'why': 'the memo-table shim models HashMap keys by structural equality: Cursor derives PartialEq, Eq and Hash over its one field (a hand-written impl that ignores part of the cursor would merge table entries)'},
+            {'name': 'A12.parser_tag_key_is_derived_structural', 'kind': 'grep_count', 'files': ['oal-syntax/src/parser.rs'], 'count': 1,
+             'token': r'#\[derive\((?=[^)]*\bPartialEq\b)(?=[^)]*\bEq\b)(?=[^)]*\bHash\b)[^)]*\)\]\s*pub enum ParserTag\b',
+             'why': 'same for the production tag'},
             {'name': 'P12.parser_tags', 'kind': 'pinned_text', 'file': 'oal-syntax/src/parser.rs', 'path': [('enum', 'ParserTag')],
              'why': 'two tags, one per memoized production'},
         ],
@@ -525,7 +532,7 @@ PROPS = {
                       'given a coherent table (every entry is what its production answers at its cursor) and the tag of the production, memoize returns what the production answers at the cursor — hit or miss, cache on or bypassed —, '
                       'keeps the table coherent, forgets no entry, and with the cache on leaves the answer in the table (so a production runs at most once per (cursor, tag)). '
                       'That every production satisfies the assumed contract (is a function of (tag, cursor), which is where the tree side effects live) is not decided: level other.',
-        'level_note': 'ASSUMED: `HashMap<(Cursor, Tag), ParserResult>` as a trusted map shim (insert / get+cloned), ParserResult opaque and cloned to an equal value, the hit counter (a Cell) as an unspecified shim that does not overflow. Rule R5 (`mut self`).',
+        'level_note': 'ASSUMED: `HashMap<(Cursor, Tag), ParserResult>` as a trusted map shim (insert / get+cloned), `ParserResult` is the real alias `Result<(Cursor, ParserMatch), ParserError>` over opaque ParserMatch / ParserError, cloned to an equal value (assume_specification on Result::clone), the hit counter (a Cell) as an unspecified shim that does not overflow. Rule R5 (`mut self`).',
         'design_ref': 'DESIGN.md section 12.50',
         'explanation': 'Listed not applicable in the plan (closure combinators, Kani did not finish). The three functions that read and write the memo table are plain functions and carry the table-level half of the property.',
         'assumptions': ['the HashMap shim', 'ParserResult::clone yields an equal value', 'every production called through the function pointer satisfies call_production\'s contract (answers prod_at(tag, cursor), keeps the table coherent, forgets nothing)', 'the tag passed to memoize is the tag of the production passed with it (precondition tag_of(p) == t): not a contract — the two call sites in oal-syntax/src/parser.rs are counted and pinned (scans A10, P12.*), an edit there makes the check UNDECIDED'],
